@@ -758,7 +758,26 @@ func (fc *FnCtx) checkAtUnlock(st *State, pos token.Pos) {
 		if label == "" {
 			label = fmt.Sprint(i + 1)
 		}
-		fc.assertNamed(st, env.evalBool(c.E), "atunlock", label, "action of the critical section: "+c.Text, pos)
+		// a clause that mentions a local variable not yet assigned at this Unlock does not apply to it
+		var goal string
+		skip := false
+		func() {
+			defer func() {
+				if r := recover(); r != nil {
+					if ve, ok := r.(vcError); ok && strings.Contains(ve.msg, "has no value at this point") {
+						skip = true
+						return
+					}
+					panic(r)
+				}
+			}()
+			goal = env.evalBool(c.E)
+		}()
+		if skip {
+			fc.dropped["atunlock #"+label+" not checked at an Unlock that precedes the assignment of a local it mentions"] = true
+			continue
+		}
+		fc.assertNamed(st, goal, "atunlock", label, "action of the critical section: "+c.Text, pos)
 	}
 }
 
